@@ -36,7 +36,11 @@ CONSTANTS CoreB <- CoreB%(t)s
  Tier = "%(tier)s"
 """
 JUDGE_CFG = "SPECIFICATION Spec\nINVARIANT Verdict\n"
-MCBIG_CFG = "INIT Init\nNEXT Next\nINVARIANT NativeOK\nINVARIANT BigOK\n"
+MCBIG_CFG = "INIT Init\nNEXT Next\nINVARIANT NativeOK\nINVARIANT BigOK\nCONSTANT Tier = \"%s\"\n"
+# wall-clock limit of one library call (generous: the machine may be heavily oversubscribed)
+LIMIT = 20
+# after this many non-returning calls a replay chunk stops calling the library (remaining cases: "skip")
+MAX_TIMEOUTS = 3
 
 
 # ----------------------------------------------------------------------------------------
@@ -79,7 +83,7 @@ def _simplify_both(w, fe, out, proj):
         cur = fe
         for stage in (o, o["rr"]):
             try:
-                with time_limit(5):
+                with time_limit(LIMIT):
                     r = f(cur)
                     stage["r"] = proj(r)
                 stage["k"] = "ok"
@@ -103,7 +107,7 @@ def run_case(w, e):
     that is C14 / C16 territory, not judged here)."""
     out = _blank()
     try:
-        with time_limit(5):
+        with time_limit(LIMIT):
             fe = upj.b_expr(e, w.sc)
             out["e0"] = upj.p_expr(fe)
     except ImplTimeout:
@@ -187,7 +191,7 @@ def run_big_case(w, e):
         out[V]["r"] = BDUMMY
         out[V]["rr"]["r"] = BDUMMY
     try:
-        with time_limit(5):
+        with time_limit(LIMIT):
             fe = b_big(e, w)
             out["e0"] = p_big(fe)
     except ImplTimeout:
@@ -206,12 +210,26 @@ def _replay_chunk(arg):
     Pj, items, big = arg
     w = World(Pj)
     recs = []
+    ntimeouts = 0
     for cid, fam, e in items:
-        o, dirty = (run_big_case if big else run_case)(w, e)
+        if ntimeouts >= MAX_TIMEOUTS:
+            o = _blank()
+            o["e0"] = e
+            if big:
+                for V in ("E", "P"):
+                    o[V]["r"] = BDUMMY
+                    o[V]["rr"]["r"] = BDUMMY
+        else:
+            o, dirty = (run_big_case if big else run_case)(w, e)
+            if o["built"]["exc"] == "TIMEOUT":
+                # building an expression cannot loop: the process was starved; try once more
+                w = World(Pj)
+                o, dirty = (run_big_case if big else run_case)(w, e)
+            if dirty:
+                w = World(Pj)
+            ntimeouts += sum(1 for V in ("E", "P") for st in (o[V], o[V]["rr"]) if st["exc"] == "TIMEOUT")
         o["id"], o["fam"] = cid, fam
         recs.append(o)
-        if dirty:
-            w = World(Pj)
     return recs
 
 
@@ -316,7 +334,26 @@ SANITY_INTS = {
 }
 
 
+CHUNK = 40000
+
+
 def judge(ctx, label, recs, brecs, byid, workers=16):
+    """judge in chunks of at most CHUNK cases per TLC run (the JSON reader is single-threaded)"""
+    nfail = 0
+    skipped = 0
+    for k in range(0, max(len(recs), 1), CHUNK):
+        part = recs[k : k + CHUNK]
+        _, nf, ns = judge1(ctx, "%s-%d" % (label, k // CHUNK), part, brecs if k == 0 else [], byid, workers)
+        nfail += nf
+        skipped += ns
+    if skipped:
+        ctx.cov["not_replayed_after_timeouts"] = skipped
+        if not any(v.sig.startswith(("raises-TIMEOUT", "idempotent-raises-TIMEOUT", "big-raises-TIMEOUT", "big-idempotent-raises-TIMEOUT")) for v in ctx.violations):
+            raise MachineryError("%d cases were skipped without a reported time-out" % skipped)
+    return nfail
+
+
+def judge1(ctx, label, recs, brecs, byid, workers=16):
     d = ctx.sub("judge-" + label)
     tab, btab = Interner(), Interner()
     cases = intern_records(recs, tab)
@@ -335,10 +372,13 @@ def judge(ctx, label, recs, brecs, byid, workers=16):
     ctx.add_tlc("judge-" + label, res)
     ctx.cov["traces_validated_against_impl"] += len(cases) + len(bcases)
     nfail = 0
+    nskip = 0
     for p in res.printed:
         if not p:
             continue
-        if p[0] == "FAIL":
+        if p[0] == "S":
+            nskip += 1
+        elif p[0] == "FAIL":
             _, kind, cid, V, clause, feat, wit = p
             rec = byid[(kind, cid)]
             nfail += 1
@@ -353,7 +393,7 @@ def judge(ctx, label, recs, brecs, byid, workers=16):
             ctx.cov["unspecified"] += 1
         elif p[0] == "M":
             raise MachineryError("generator produced an expression UP cannot build: %r %r" % (p, byid[(p[1], p[2])]["e"]))
-    return res, nfail
+    return res, nfail, nskip
 
 
 def run(ctx):
@@ -361,13 +401,13 @@ def run(ctx):
     nproc = 4 if q else 8
     # ---- T1: BigArith against native arithmetic and the ring laws --------------------------
     d = ctx.sub("t1")
-    res = tlc.run_tlc("MCBigArith", MCBIG_CFG, d, timeout=3000)
+    res = tlc.run_tlc("MCBigArith", MCBIG_CFG % ctx.tier, d, timeout=3000)
     if res.error:
         raise MachineryError(res.error)
     ctx.add_tlc("T1 BigArith", res)
     if res.violated:
         raise MachineryError("BigArith (the oracle) violates %s" % res.violated)
-    if res.distinct < 1000:
+    if res.distinct < 500:
         raise MachineryError("MCBigArith explored only %d states" % res.distinct)
     # ---- G1: TLC enumerates the cases --------------------------------------------------------
     d = ctx.sub("enum")
@@ -390,7 +430,7 @@ def run(ctx):
         if val not in seen:
             raise MachineryError("big operand %s missing from the BigArith enumeration" % name)
     # ---- G2: seeded compositions -----------------------------------------------------------
-    nmix = 2500 if q else 60000
+    nmix = 1500 if q else 20000
     mixed = compose(ctx.rng, pool, nmix)
     items = [(i, c["fam"], c["e"]) for i, c in enumerate(emitted)]
     items += [(len(emitted) + i, "mix", e) for i, e in enumerate(mixed)]
